@@ -55,7 +55,7 @@ def target_text(o, wf, vocab):
         return "%s:%s" % (role_path(wf, o["tt"]), o["tn"])
     if o["tk"] == "alias":
         return "::" + o["ta"]
-    return vocab["xout_tcp"] if o["tk"] == "xtcp" else vocab["xout_ipc"]
+    return {"xtcp": vocab["xout_tcp"], "xipc": vocab["xout_ipc"], "xupper": vocab["xout_upper"]}[o["tk"]]
 
 
 def bind_entry(d, vocab):
@@ -267,6 +267,8 @@ def _run(ctx, replay_scn):
         "(chans.<name>.0.address/method/transport in the CONFIGURE command) and about the ports granted in the ACCEPT call",
         "tasks use control mode direct or fairmq (basic/hook tasks are pushed no channel properties at all)",
         "explicit bind targets are declared with the default (tcp) addressing; channel names are unique per level",
+        "explicit addresses contain upper- and lower-case characters; a connect target with an upper-case scheme (TCP://...) is, as in "
+        "the code, not an explicit address: it is matched against the bind map and must fail the configuration",
     ]
     ctx.rule = ("case = (1-3 tasks on 1-2 hosts, <= 2 inbound and <= 2 outbound declarations placed at template / task-role / "
                 "aggregator-role / root level, addressing, transport, alias, explicit targets, path/alias/explicit/dangling connect "
